@@ -4,7 +4,7 @@ from . import dsllib as D
 PROPERTY = "C15"
 DRIVER = "TraitsVerif/Driver/Dsl.lean"
 PROPS_MODULES = ["TraitsVerif.Props.C15"]
-TRANSLATORS = ["grammar", "dslprog", "parsertables"]
+TRANSLATORS = ["grammar", "dslprog", "parsertables", "eqrows"]
 RULE = ("exhaustive: every string of <= 4 (quick) / <= 6 (thorough) symbols over the 11-symbol alphabet "
         "{a b items +m * . : , [ ] space}; seeded random derivations of the grammar up to depth 6 with "
         "redundant brackets and random blanks (space, tab, newline, CR, FF), a share of them with non-ASCII "
@@ -19,6 +19,9 @@ RULE = ("exhaustive: every string of <= 4 (quick) / <= 6 (thorough) symbols over
         "LONG expressions (chains of 60-300 elements of '.', ':', ',' and mixtures, parallel groups of series, brackets "
         "nested 60-200 deep: redundant, right-nested, left-nested, 60-200 branches below a series; lengths drawn from "
         "the rng, half of them powers of two and their neighbours) rendered from derivation trees; "
+        "for every exhaustive short string, a third of the derivations and every long text also the Tree built by the "
+        "REAL generated parser against the tree shape the grammar file prescribes (case t); for every pair also the lru "
+        "caches (each text keeps its own pattern after the other went through the cache; pairs equal modulo blanks); "
         "pairs of spellings (blanks / redundant brackets / re-association / swapped branches / perturbed) for "
         "expression and graph equality; a case is non-trivial when it compiled or compared, distinct = "
         "distinct canonical output line")
@@ -63,7 +66,11 @@ def corpus():
     out += [D.case_eq("x.[a,b]", "x.[b,a]", "swap"), D.case_eq("[a.b].c", "a.[b.c]", "assoc"),
             D.case_eq("a,b", "b,a", "swap"), D.case_eq("a.b", " a\t. [ b ]\n", "brackets"),
             D.case_eq("a,a", "a", "neg"), D.case_eq("x.[a.[b,c]]", "x.[a.[c,b]]", "swap"),
-            D.case_eq("a:b", "a.b", "neg"), D.case_eq("[a,b],c", "a,[b,c]", "assoc")]
+            D.case_eq("a:b", "a.b", "neg"), D.case_eq("[a,b],c", "a,[b,c]", "assoc"),
+            # cache keys: texts that are equal once blanks are removed but are different texts
+            D.case_eq("ab", "a b", "cache"), D.case_eq("items", "it ems", "cache"), D.case_eq("a.b", "a .b", "cache"),
+            D.case_eq("x", "x\n", "cache"), D.case_eq("a,b", "a ,\tb", "cache"), D.case_eq("+m", "+ m", "cache"),
+            D.case_eq("a.items", "a.item s", "cache"), D.case_eq("a1", "a 1", "cache")]
     return out
 
 
@@ -89,11 +96,14 @@ def generate(rng, tier):
     nl = {4: 1500, 6: 30000}.get(nex, 10000)
     for s in D.exhaustive(nex):
         yield D.case_c(s)
+        yield D.case_t(s)
     texts = []
     for t in _derivations(rng, nd):
         s = D.decorate(rng, D.tree_tokens(t), rng.choice([0.0, 0.1, 0.4]))
         texts.append(s)
         yield D.case_c(s)
+        if len(texts) % 3 == 0:
+            yield D.case_t(s)
     yield from _l_cases(rng, nl, texts)
     for _ in range(nf):
         yield D.case_c(D.mutate(rng, rng.choice(texts)))
@@ -114,6 +124,9 @@ def generate(rng, tier):
             u = D.tree_tokens(D.perturb(rng, t))
         u_text = D.decorate(rng, u, 0.3) if rel == "ws" or rng.random() < 0.3 else "".join(u)
         yield D.case_eq(s, u_text, rel)
+        if rng.random() < 0.15 and len(s) > 1:      # a blank dropped into the text: equal modulo blanks, another text
+            i = rng.randint(1, len(s) - 1)
+            yield D.case_eq(s, s[:i] + rng.choice(" \t\n") + s[i:], "cache")
 
 
 LONG_LENGTHS = [63, 64, 65, 127, 128, 129, 255, 256, 257]
@@ -184,6 +197,7 @@ def _long_cases(rng, n):
             flat += ["+", t[1:]] if t.startswith("+") else [t]
         text = D.decorate(rng, flat, rng.choice([0.0, 0.0, 0.1])) if flat else ""
         yield D.case_c(text)
+        yield D.case_t(text)
 
 
 M_PREFIXES = ["", "child:", "child.", "children:items:", "children.items.", " child : ", "[child]:"]
@@ -477,12 +491,46 @@ def _noop(event):
     pass
 
 
+def _cache_hits(t1, t2, tags):
+    """The lru caches of parse / compile_str are keyed by the text itself: after the OTHER text of
+    the pair went through the cache, each text still gets its own pattern (or its own rejection) -
+    the one an uncached parse gives and the one the documented semantics give - never the other's."""
+    from traits.observation import parsing as P
+
+    def outcome(f, text):
+        try:
+            return D.show_graphs(f(text))
+        except Exception as e:      # noqa: BLE001
+            return "err " + D.exc_name(e)
+    hits = []
+    for a, b in ((t1, t2), (t2, t1)):
+        outcome(P.compile_str, b)
+        got = outcome(P.compile_str, a)
+        fresh = outcome(lambda t: P.parse.__wrapped__(t)._as_graphs(), a)
+        via_parse = outcome(lambda t: P.parse(t)._as_graphs(), a)
+        try:
+            exp, info = D.denote(a)
+            documented = None if info["star_in_brackets"] else set(exp)
+        except D.NotInLanguage:
+            documented = "err"
+        wrong = got != fresh or via_parse != fresh
+        if not wrong and documented is not None:
+            wrong = (got.startswith("err") != (documented == "err")) or \
+                (documented != "err" and set(got.split("|") if got else []) != documented)
+        if wrong:
+            hits.append(_hit("cache-returns-other-pattern", "compile_str(%r) after compile_str(%r) gives %s; uncached: %s"
+                             % (a, b, got[:80], fresh[:80]), text=[a, b]))
+    tags.add("cache-pair-checked:" + ("same-modulo-blanks" if "".join(t1.split()) == "".join(t2.split())
+                                      else "different"))
+    return hits
+
+
 def _run_eq(t1, t2, rel):
     from collections import Counter
     from traits.observation import expression as E
     from traits.observation import parsing as P
     tags = {"eq:" + rel}
-    hits = []
+    hits = _cache_hits(t1, t2, tags)
     try:
         p1, p2 = P.parse(t1), P.parse(t2)
     except Exception as e:      # noqa: BLE001
@@ -762,8 +810,48 @@ def _removal_check_list(texts, tags):
     return []
 
 
+def _show_lark(x, bad):
+    if hasattr(x, "children"):
+        return "%s(%s)" % (x.data, ",".join(_show_lark(c, bad) for c in x.children))
+    if getattr(x, "type", None) != "NAME":
+        bad.append(getattr(x, "type", type(x).__name__))
+    return D.esc(str(x.value if hasattr(x, "value") else x))
+
+
+def _run_t(text):
+    """The `Tree` that the real generated parser builds, against the shape the grammar file
+    prescribes (rule names incl. the _terminal variants, children, brackets inlined, which
+    tokens are kept): this is what `_handle_tree` is fed."""
+    from traits.observation import parsing as P
+    from traits.observation import _generated_parser as G
+    tags, hits, bad = {"tree-shape"}, [], []
+    try:
+        out = "tree " + _show_lark(P._LARK_PARSER.parse(text), bad)
+    except G.LarkError:
+        out = "err"
+    except RecursionError:
+        return "err RecursionError", [], tags | {"outside:recursion-limit"}
+    except Exception as e:      # noqa: BLE001
+        out = "err " + D.exc_name(e)
+    try:
+        _, info = D.denote(text)
+        expected = "err" if info["star_in_brackets"] else "tree " + D.lark_shape(D.tree_of(text))
+    except D.NotInLanguage:
+        expected = "err"
+    tags.add("tree:" + ("rejected" if out == "err" else "built"))
+    if bad:
+        hits.append(_hit("lark-tree-shape-differs:token-kept", "tokens other than NAME are kept in the tree: %s" % bad,
+                         text=text, observed=out))
+    if out != expected:
+        hits.append(_hit("lark-tree-shape-differs", "the parser's Tree is not the one the grammar file prescribes",
+                         text=text, expected=expected, observed=out))
+    return out, hits, tags
+
+
 def run_impl(case):
     kind, t1, t2, rel = D.parse_case(case)
+    if kind == "t":
+        return _run_t(t1)
     if kind == "l":
         return _run_l(t1)
     if kind == "c":
@@ -774,7 +862,7 @@ def run_impl(case):
 
 
 def nontrivial(case, out):
-    return out.startswith("ok") or out.startswith("eq") or out.startswith("fired")
+    return out.startswith("ok") or out.startswith("eq") or out.startswith("fired") or out.startswith("tree")
 
 
 def shrink(case, fails):
